@@ -75,7 +75,7 @@ EventOk(ev) ==
     [] ev.e = "host" -> HostOk(ev)
     [] ev.e = "literal" -> LiteralOk(ev)
     [] ev.e = "email" -> EmailOk(ev)
-    [] ev.e \in {"ipv4", "ipv6", "ipaddr"} -> TRUE     \* bare validators: drift is recorded, nothing is pinned
+    [] ev.e \in {"ipv4", "ipv6", "ipaddr", "policy"} -> TRUE     \* bare validators: drift is recorded, nothing is pinned
     [] OTHER -> FALSE
 
 Init == l \in {i \in 1..N : i % Chunk = 1} \cup (IF N = 0 THEN {0} ELSE {})
